@@ -144,8 +144,11 @@ public:
     record* entry=pop(data_list);
     if(!entry) //no cached memory available
       return(T());
+    //copy the payload out while the record still belongs to us: once it is on
+    //the free list another thread may take and overwrite it
+    T result=*entry;
     push(free_list,entry);
-    return(*entry);
+    return(result);
   }
 };
   
